@@ -23,10 +23,32 @@ def check(P: Project, R: Report) -> None:
     rel = wr.module.rel
     msg = ast.unparse(loop.target)
 
+    # helpers of the client that do the write for the writer loop (`await self._write_line(data)`): the line is their argument
+    cl_meths = P.methods(_stdio.client(P))
+    write_helpers = {}
+    for g_ in cl_meths.values():
+        if g_ is wr:
+            continue
+        ws_ = [c_ for c_ in walk_local(g_.node) if _stdio.is_stdin_write(c_, g_.node)]
+        ps_ = [p_ for p_ in g_.positional_params() if p_ != "self"]
+        if ws_ and len(ps_) == 1 and all(c_.args and isinstance(c_.args[0], ast.Name) and c_.args[0].id == ps_[0] for c_ in ws_) \
+                and any(isinstance(c_, ast.Call) and call_name(c_) == f"self.{g_.name}" for c_ in walk_local(loop)):
+            write_helpers[g_.name] = (g_, ws_)
+    for hn_, (g_, ws_) in sorted(write_helpers.items()):
+        R.fn(g_.fq)
+        in_loop = [c_ for l_ in walk_local(g_.node) if isinstance(l_, (ast.For, ast.AsyncFor, ast.While)) for c_ in walk_local(l_) if c_ in ws_]
+        ha_, ho_ = run_paths(g_.node, event_of=lambda c_, st_, an_, g_=g_: "w" if _stdio.is_stdin_write(c_, g_.node) else None, fallible=False)
+        counts_ = {st_.count("w") for st_, _n in ho_.ret} | {st_.count("w") for st_ in ho_.normal}
+        R.ob("R1", f"{g_.qual}: the line it is given is put on the pipe by one write", not in_loop and counts_ <= {0, 1}, f"{rel}:{(in_loop or ws_)[0].lineno}",
+             (f"`{ast.unparse(in_loop[0])[:50]}` sits in a loop: the same line (or pieces of it) can be written more than once — a write that was cut short by a timeout has already queued its bytes, so offering the line again delivers it twice; and every awaited write lets another task's line land in between" if in_loop else f"write counts per path {sorted(counts_)}"),
+             sample=f"R1 {g_.qual}: one stdin write per call")
+
     def ev(call, st: PState, an: PathAnalysis):
         nm = call_name(call)
         if isinstance(call.func, ast.Attribute) and call.func.attr in ("send", "send_all", "write"):
             nm = subst_text(call.func.value, st) + "." + call.func.attr  # (`stdin = self.process.stdin; await stdin.send(…)`)
+        if nm.startswith("self.") and nm.count(".") == 1 and nm[5:] in write_helpers and call.args:
+            nm = "self.process.stdin.send"  # a method of the client that puts its argument on the pipe (checked below)
         if nm.endswith("stdin.send") or nm.endswith("stdin.send_all") or nm.endswith("stdin.write"):
             arg = call.args[0] if call.args else None
             return "send:" + (subst_text(arg, st) if arg is not None else "?") + "||" + "&&".join(sorted(st.lits))
